@@ -1,34 +1,6 @@
 import Karp.Driver.All
-open Lean Karp.Driver
+import Karp.Driver.Loop
 
-/-- Dispatch one request line. Any failure is reported as `{"err": ...}`; the driver never
-    invents a default answer. -/
-def handleLine (line : String) : Json :=
-  match Json.parse line with
-  | .error e => Json.mkObj [("err", Json.str s!"parse: {e}")]
-  | .ok j =>
-    match (do
-      let op ← strF j "op"
-      let inp ← fld j "in"
-      let impl := (fldOpt j "impl").getD Json.null
-      let h ← Karp.Driver.dispatch op
-      h op inp impl : Except String Resp) with
-    | .ok r => r.toJson
-    | .error e => Json.mkObj [("err", Json.str e)]
-
-partial def loop (hin hout : IO.FS.Stream) : IO Unit := do
-  let line ← hin.getLine
-  if line.isEmpty then return ()
-  let t := line.trimAscii.toString
-  if t.isEmpty then
-    loop hin hout
-  else
-    hout.putStrLn (handleLine t).compress
-    hout.flush
-    loop hin hout
-
-def main : IO Unit := do
-  let hin ← IO.getStdin
-  let hout ← IO.getStdout
-  loop hin hout
-  hout.flush
+/-- the all-in-one driver (every property); `check` uses the per-property drivers `Mains/Cxx.lean` so that a change which
+    breaks one property's model does not take the other properties' sweeps down with it -/
+def main : IO Unit := Karp.Driver.runDriver Karp.Driver.dispatch
